@@ -990,4 +990,47 @@ example : [1, 2, 6].Perm [6, 1, 2] := by decide
 example : weightedAverage [(1, 3), (2, 3), (6, 3)] = some (3, 7 / 3) := by decide +kernel
 example : variance [1, 2, 6] = some 7 := by decide +kernel
 
+/-! ## 7. Guards of the summary statistics (fix 67d359e) -/
+
+/-- fix 67d359e — the guarded functions are the computations behind their guards: a diagnostic exactly
+    where `mean`/`median`/`variance` have no value, the same value otherwise; so every law proved for
+    `mean`, `median`, `variance`, `weightedAverage` holds for what the library now returns. -/
+theorem meanE_eq (l : List Rat) :
+    meanE l = match mean l with | some v => .ok v | none => .error .diag := by
+  unfold meanE mean; split <;> rfl
+
+theorem medianE_eq (l : List Rat) :
+    medianE l = match median l with | some v => .ok v | none => .error .diag := by
+  unfold medianE median
+  split
+  · rfl
+  · simp only []; split <;> rfl
+
+theorem varianceE_eq (l : List Rat) :
+    varianceE l = match variance l with | some v => .ok v | none => .error .diag := by
+  unfold varianceE variance; split <;> rfl
+
+/-- which lists are rejected: no point for the mean and the median, fewer than two for the variance, the
+    standard deviation and the weighted average -/
+theorem stats_guards (l : List Rat) (d : List (Rat × Rat)) :
+    (meanE l = .error .diag ↔ l.length = 0) ∧ (medianE l = .error .diag ↔ l.length = 0) ∧
+    (varianceE l = .error .diag ↔ l.length < 2) ∧ (stdDevSqE l = .error .diag ↔ l.length < 2) ∧
+    (weightedAverageE d = .error .diag ↔ d.length < 2) := by
+  refine ⟨?_, ?_, ?_, ?_, ?_⟩
+  · unfold meanE; split <;> simp [*]
+  · unfold medianE; split
+    · simp [*]
+    · simp only []; split <;> simp [*]
+  · unfold varianceE; split <;> simp [*]
+  · unfold stdDevSqE varianceE; split <;> simp [*]
+  · unfold weightedAverageE; split <;> simp [*]
+
+/-- with at least two points the weighted average is the computation `weightedAverage` -/
+theorem weightedAverageE_ok (d : List (Rat × Rat)) (h : 2 ≤ d.length) :
+    weightedAverageE d = .ok (weightedAverage d) := by
+  unfold weightedAverageE; rw [if_neg (by omega)]
+
+example : meanE [] = .error .diag ∧ varianceE [3] = .error .diag ∧ weightedAverageE [(1, 1)] = .error .diag ∧
+    meanE [3] = .ok 3 ∧ varianceE [1, 2, 6] = .ok 7 := by decide +kernel
+
 end Lp.C19
